@@ -2,10 +2,13 @@
 // stdin: one zone description per line; stdout: one line per (zone, src host):
 //     `<zone description> <src> => <route to dst 0> | <route to dst 1> | ... |`
 // (every route is a list of link names; each route is terminated by `|`).
-// Every zone is built in a forked child: the fat-tree and dragonfly code keep `static` counters (link unique ids,
-// leaf positions) that would otherwise depend on the zones built before; the child starts `pre` dummy zones first when
-// the description asks for it (to exercise exactly that dependence).  A child that dies prints `... => CRASH <sig>`;
-// a zone whose construction throws prints `<zone description> - => REJECTED`.
+// Zones are built one after the other in this process (fork costs 0.1 s per zone here); every name the harness chooses
+// (zone, hosts, loopback/limiter/star links) gets a per-zone prefix `<k>~` that is stripped when printing.  The fat-tree
+// and dragonfly code keep function-local `static` counters (leaf positions, link unique ids) that go on counting from
+// zone to zone: the harness keeps count of the fat-tree leaves / cables and dragonfly cables IT has created so far and
+// appends them to the description (`F ... <posOff> <uidOff>`, `D ... <uidOff>`).  With `--fork` every zone is built in a
+// forked child instead (crash isolation: a child that dies prints `<zone> - => CRASH <sig>`).
+// A zone whose construction throws invalid_argument prints `<zone description> - => REJECTED`.
 //
 //   T <d1,d2,..> <lb> <lim> <sp>                       torus; lb/lim in {0,1}; sp in {S (SPLITDUPLEX), H (SHARED)}
 //   F <levels> <down,..> <up,..> <count,..> <lb> <lim> <sp> <pre>   fat tree; pre = number of leaves of a fat tree built
@@ -14,7 +17,7 @@
 //   S <n> <spec_0> .. <spec_{n-1}>                      star zone with n hosts; spec_i = up:down:loop:sym where each of
 //                                                       up/down/loop is `-` (not set) or a `,`-list of link ids
 //                                                       (`e` = empty list), sym in {0,1} (add_route(..., symmetrical))
-//                                                       link ids: a..z shared links, A..Z split-duplex links
+//                                                       link ids: a..z shared links, A..Z split-duplex links (UP), A! = DOWN
 #include <simgrid/kernel/routing/NetPoint.hpp>
 #include <simgrid/s4u/Engine.hpp>
 #include <simgrid/s4u/Host.hpp>
@@ -53,22 +56,44 @@ static std::string coord_str(const std::vector<unsigned long>& coord)
 }
 
 static std::vector<sg::Host*> hosts;
+static std::string prefix;          // `<k>~`
+static unsigned long zone_idx  = 0;
+static unsigned long ft_leaves = 0; // fat-tree leaves created so far in this process (= the static `position`)
+static unsigned long ft_cables = 0; // fat-tree cables created so far (= the static `uniqueId` of add_internal_link)
+static unsigned long df_cables = 0; // dragonfly cables created so far (= the static `uniqueId` of generate_links)
+
+static std::string strip(const std::string& name)
+{
+  auto p = name.find('~');
+  if (p != std::string::npos && p < 8 && name.find_first_not_of("0123456789") == p)
+    return name.substr(p + 1);
+  return name;
+}
+static unsigned long count_cables(sg::NetZone* z, const std::vector<std::string>& starts, bool split)
+{
+  unsigned long n = 0;
+  for (auto* l : z->get_impl()->get_all_links())
+    for (auto const& st : starts)
+      if (strip(l->get_name()).rfind(st, 0) == 0)
+        n++;
+  return split ? n / 2 : n;
+}
 
 static sg::Host* host_cb(sg::NetZone* zone, const std::vector<unsigned long>& coord, unsigned long id)
 {
-  auto* h = zone->add_host("h" + std::to_string(id) + "@" + coord_str(coord), 1e9);
+  auto* h = zone->add_host(prefix + "h" + std::to_string(id) + "@" + coord_str(coord), 1e9);
   hosts.push_back(h);
   return h;
 }
 static sg::Link* loopback_cb(sg::NetZone* zone, const std::vector<unsigned long>& coord, unsigned long id)
 {
-  return zone->add_link("lb" + std::to_string(id) + "@" + coord_str(coord), 1e9)
+  return zone->add_link(prefix + "lb" + std::to_string(id) + "@" + coord_str(coord), 1e9)
       ->set_sharing_policy(sg::Link::SharingPolicy::FATPIPE)
       ->seal();
 }
 static sg::Link* limiter_cb(sg::NetZone* zone, const std::vector<unsigned long>& coord, unsigned long id)
 {
-  return zone->add_link("lim" + std::to_string(id) + "@" + coord_str(coord), 1e9)->seal();
+  return zone->add_link(prefix + "lim" + std::to_string(id) + "@" + coord_str(coord), 1e9)->seal();
 }
 
 static void print_routes(const std::string& desc)
@@ -81,7 +106,7 @@ static void print_routes(const std::string& desc)
       double lat = 0;
       hosts[s]->route_to(hosts[d], links, &lat);
       for (auto* l : links)
-        out << " " << l->get_name();
+        out << " " << strip(l->get_name());
       out << " |";
     }
     out << "\n";
@@ -109,12 +134,15 @@ static void do_zone(const std::string& line)
   std::istringstream in(line);
   std::string kind;
   in >> kind;
+  hosts.clear();
+  prefix = std::to_string(zone_idx++) + "~";
+  std::string desc = line;
   auto* root = sg::Engine::get_instance()->get_netzone_root();
   if (kind == "T") {
     std::string dims, sp;
     int lb, lim;
     in >> dims >> lb >> lim >> sp;
-    auto* z = root->add_netzone_torus("z", parse_list(dims), 1e9, 1e-6, policy(sp));
+    auto* z = root->add_netzone_torus(prefix + "z", parse_list(dims), 1e9, 1e-6, policy(sp));
     set_cbs(z, lb, lim);
     z->seal();
   } else if (kind == "F") {
@@ -126,30 +154,37 @@ static void do_zone(const std::string& line)
     auto tou = [](const std::vector<unsigned long>& v) { return std::vector<unsigned int>(v.begin(), v.end()); };
     if (pre > 0) {
       // a first fat tree with `pre` leaves (1 level): moves the static counters of FatTreeZone
-      auto* z0 = root->add_netzone_fatTree("z0", 1, {(unsigned)pre}, {1}, {1}, 1e9, 1e-6, policy(sp));
+      auto* z0 = root->add_netzone_fatTree(prefix + "z0", 1, {(unsigned)pre}, {1}, {1}, 1e9, 1e-6, policy(sp));
       z0->set_host_cb([](sg::NetZone* zone, const std::vector<unsigned long>&, unsigned long id) {
-        return zone->add_host("pre" + std::to_string(id), 1e9);
+        return zone->add_host(prefix + "pre" + std::to_string(id), 1e9);
       });
       z0->seal();
+      ft_leaves += pre;
+      ft_cables += count_cables(z0, {"link_from_"}, sp == "S");
     }
-    auto* z = root->add_netzone_fatTree("z", levels, tou(parse_list(down)), tou(parse_list(up)),
+    desc += " " + std::to_string(ft_leaves) + " " + std::to_string(ft_cables);
+    auto* z = root->add_netzone_fatTree(prefix + "z", levels, tou(parse_list(down)), tou(parse_list(up)),
                                         tou(parse_list(count)), 1e9, 1e-6, policy(sp));
     set_cbs(z, lb, lim);
     z->seal();
+    ft_leaves += hosts.size();
+    ft_cables += count_cables(z, {"link_from_"}, sp == "S");
   } else if (kind == "D") {
     std::string g, c, r, sp;
     unsigned n;
     int lb, lim;
     in >> g >> c >> r >> n >> lb >> lim >> sp;
     auto pg = parse_list(g), pc = parse_list(c), pr = parse_list(r);
-    auto* z = root->add_netzone_dragonfly("z", {pg.at(0), pg.at(1)}, {pc.at(0), pc.at(1)}, {pr.at(0), pr.at(1)}, n, 1e9,
+    desc += " " + std::to_string(df_cables);
+    auto* z = root->add_netzone_dragonfly(prefix + "z", {pg.at(0), pg.at(1)}, {pc.at(0), pc.at(1)}, {pr.at(0), pr.at(1)}, n, 1e9,
                                           1e-6, policy(sp));
     set_cbs(z, lb, lim);
     z->seal();
+    df_cables += count_cables(z, {"local_link_", "green_link_", "black_link_", "blue_link_"}, sp == "S");
   } else if (kind == "S") {
     unsigned n;
     in >> n;
-    auto* z = root->add_netzone_star("z");
+    auto* z = root->add_netzone_star(prefix + "z");
     std::map<char, sg::Link*> shared;
     std::map<char, sg::SplitDuplexLink*> split;
     auto mk = [&](const std::string& s) {
@@ -162,17 +197,17 @@ static void do_zone(const std::string& line)
         char c = tok.at(0);
         if (c >= 'a' && c <= 'z') {
           if (not shared.count(c))
-            shared[c] = z->add_link(std::string(1, c), 1e9)->seal();
+            shared[c] = z->add_link(prefix + std::string(1, c), 1e9)->seal();
           res.emplace_back(shared[c]);
         } else {
           if (not split.count(c)) {
-            auto* sd = z->add_split_duplex_link(std::string(1, c), 1e9);
+            auto* sd = z->add_split_duplex_link(prefix + std::string(1, c), 1e9);
             sd->seal();
             split[c] = sd;
           }
-          // A:u / A:d force a direction, A alone = UP
+          // `A` = direction UP, `A!` = direction DOWN
           auto dir = sg::LinkInRoute::Direction::UP;
-          if (tok.size() > 1 && tok.back() == 'd')
+          if (tok.size() > 1 && tok.back() == '!')
             dir = sg::LinkInRoute::Direction::DOWN;
           res.emplace_back(split[c], dir);
         }
@@ -183,7 +218,7 @@ static void do_zone(const std::string& line)
     for (auto& s : specs)
       in >> s;
     for (unsigned i = 0; i < n; i++)
-      hosts.push_back(z->add_host("h" + std::to_string(i), 1e9));
+      hosts.push_back(z->add_host(prefix + "h" + std::to_string(i), 1e9));
     for (unsigned i = 0; i < n; i++) {
       std::stringstream ss(specs[i]);
       std::string up, down, loop, sym;
@@ -204,30 +239,42 @@ static void do_zone(const std::string& line)
   } else {
     throw std::invalid_argument("unknown zone kind " + kind);
   }
-  print_routes(line);
+  print_routes(desc);
+}
+
+static void run_zone(const std::string& line)
+{
+  try {
+    do_zone(line);
+  } catch (const std::invalid_argument& ex) {
+    std::cout << line << " - => REJECTED\n";
+  } catch (const std::exception& ex) {
+    std::cout << line << " - => EXCEPTION " << ex.what() << "\n";
+  }
+  std::cout.flush();
 }
 
 int main(int argc, char** argv)
 {
+  bool use_fork = false;
+  for (int i = 1; i < argc; i++)
+    if (std::string(argv[i]) == "--fork")
+      use_fork = true;
   sg::Engine e(&argc, argv);
   xbt_log_control_set("root.thres:critical");
   std::string line;
   while (std::getline(std::cin, line)) {
     if (line.empty())
       continue;
+    if (not use_fork) {
+      run_zone(line);
+      continue;
+    }
     std::cout.flush();
     pid_t pid = fork();
     if (pid == 0) {
-      int rc = 0;
-      try {
-        do_zone(line);
-      } catch (const std::invalid_argument& ex) {
-        std::cout << line << " - => REJECTED\n";
-      } catch (const std::exception& ex) {
-        std::cout << line << " - => EXCEPTION " << ex.what() << "\n";
-      }
-      std::cout.flush();
-      _exit(rc);
+      run_zone(line);
+      _exit(0);
     }
     int status = 0;
     waitpid(pid, &status, 0);
